@@ -54,6 +54,20 @@ fn ref_f32(bits: u32) -> Result<(i128, u8), &'static str> {
     Ok((sign * q as i128, scale))
 }
 
+fn fmt_got(got: &Result<Decimal, fpdec::DecimalError>) -> String {
+    match got {
+        Ok(d) => format!("V {} {}", d.coefficient(), d.n_frac_digits()),
+        Err(e) => format!("E {:?}", e),
+    }
+}
+
+fn fmt_want(want: &Result<(i128, u8), &'static str>) -> String {
+    match want {
+        Ok((cf, s)) => format!("V {} {}", cf, s),
+        Err(k) => format!("E {}", k),
+    }
+}
+
 pub fn sweep_f32(args: &[String]) -> i32 {
     let lo: u64 = args[0].parse().expect("lo");
     let hi: u64 = args[1].parse().expect("hi");
@@ -71,25 +85,38 @@ pub fn sweep_f32(args: &[String]) -> i32 {
             let mut bits = a;
             while bits < b {
                 let f = f32::from_bits(bits as u32);
-                let got = std::panic::catch_unwind(|| Decimal::try_from(f));
+                let got = match std::panic::catch_unwind(|| Decimal::try_from(f)) {
+                    Ok(g) => g,
+                    Err(_) => {
+                        // "no float input panics"
+                        c[0] += 1;
+                        c[1] += 1;
+                        if lines.len() < 50 {
+                            lines.push(format!("MISMATCH {} got P want -", bits));
+                        }
+                        bits += 1;
+                        continue;
+                    }
+                };
                 let want = ref_f32(bits as u32);
                 c[0] += 1;
-                let got_s = match &got {
-                    Ok(Ok(d)) => format!("V {} {}", d.coefficient(), d.n_frac_digits()),
-                    Ok(Err(e)) => format!("E {:?}", e),
-                    Err(_) => "P".to_string(),
-                };
-                let want_s = match &want {
-                    Ok((cf, s)) => format!("V {} {}", cf, s),
-                    Err(k) => format!("E {}", k),
+                let same = match (&got, &want) {
+                    (Ok(d), Ok((cf, s))) => d.coefficient() == *cf && d.n_frac_digits() == *s,
+                    (Err(e), Err(k)) => match e {
+                        fpdec::DecimalError::NotANumber => *k == "NotANumber",
+                        fpdec::DecimalError::InfiniteValue => *k == "InfiniteValue",
+                        fpdec::DecimalError::InternalOverflow => *k == "InternalOverflow",
+                        _ => false,
+                    },
+                    _ => false,
                 };
                 let dontcare = bits as u32 == 0xff00_0000; // -2^127
                 if dontcare {
                     c[8] += 1;
-                } else if got_s != want_s {
+                } else if !same {
                     c[1] += 1;
                     if lines.len() < 50 {
-                        lines.push(format!("MISMATCH {} got {} want {}", bits, got_s, want_s));
+                        lines.push(format!("MISMATCH {} got {} want {}", bits, fmt_got(&got), fmt_want(&want)));
                     }
                 } else {
                     match &want {
@@ -102,7 +129,7 @@ pub fn sweep_f32(args: &[String]) -> i32 {
                     }
                 }
                 if stride != 0 && bits % stride == 0 {
-                    lines.push(format!("SAMPLE {} {}", bits, got_s));
+                    lines.push(format!("SAMPLE {} {}", bits, fmt_got(&got)));
                 }
                 bits += 1;
             }
